@@ -35,10 +35,10 @@ class EnumIter:
 
 
 class ChunksIter:
-    __slots__ = ("s", "n", "i")
+    __slots__ = ("s", "n", "i", "exact")
 
-    def __init__(self, s, n):
-        self.s, self.n, self.i = s, n, 0
+    def __init__(self, s, n, exact=True):
+        self.s, self.n, self.i, self.exact = s, n, 0, exact
 
 
 class CharsIter:
@@ -134,6 +134,10 @@ def iter_next(I, it, depth):
         if it.i + it.n <= it.s.len:
             sl = Slice(it.s.heap, it.s.start + it.i, it.n, it.s.esz)
             it.i += it.n
+            return some(sl)
+        if not it.exact and it.i < it.s.len:
+            sl = Slice(it.s.heap, it.s.start + it.i, it.s.len - it.i, it.s.esz)
+            it.i = it.s.len
             return some(sl)
         return NONE()
     raise Unsupported("next() on %r" % (it,))
@@ -349,6 +353,8 @@ def call(I, fr, name, fname, k, args, depth):
         raise Unsupported("rev")
     if name.endswith("slice::<impl [T]>::chunks_exact"):
         return ChunksIter(as_slice(I, args[0]), args[1])
+    if name.endswith("slice::<impl [T]>::chunks"):
+        return ChunksIter(as_slice(I, args[0]), args[1], exact=False)
     if name.endswith("Iterator>::position") or name.endswith("Iterator::position"):
         i = 0
         while True:
